@@ -16,6 +16,7 @@ CONSTANTS
   EmitAtBound = TRUE
   Pin1 = 12
   Pin2 = 11
+  MaxMid = 0
   HistMax = 12
   AtomicPoll = TRUE
 INVARIANTS Emit PollOK TokensOK InterestsOK
